@@ -539,10 +539,25 @@ def check_tails(rep, prog, fn, m, main, rule, what, expect_push):
                 tails[owner] = acts
     if not expect_push:
         return
+    # a loop after the merge that pushes into the result but whose cursor is neither merge cursor (`auto rest = left_remains ? it : v_it`)
+    unknown_tail = None
+    after = False
+    for st in fn.body.c:
+        if st is main:
+            after = True
+            continue
+        if after and st.k in ('WhileStmt', 'ForStmt', 'CXXForRangeStmt') and st.body is not None:
+            cvs = [v for v in (ex.vars_in(st.cond) if getattr(st, 'cond', None) is not None else []) if v in m.cursors and m.cursors[v][1] == 'begin']
+            if not cvs and any(x.k == 'CXXMemberCallExpr' and x.callee and x.callee['name'] in ('push_back', 'emplace_back') for x in st.body.walk()):
+                unknown_tail = st
     for owner in ('this', 'arg'):
         acts = tails.get(owner)
         whatt = 'the rest of the %s operand is appended after the merge' % ('left' if owner == 'this' else 'right')
-        if acts is None:
+        if acts is None and unknown_tail is not None:
+            rep.undecided(rule, unknown_tail, fn, whatt, 'a loop after the merge appends through `%s`, a cursor that is not one of the two merge cursors (selected at run time?)' %
+                          unknown_tail.text(40))
+            continue
+        elif acts is None:
             rep.violation(rule, main, fn, whatt, 'no tail loop for the %s operand: its coordinates beyond the other operand\'s end are lost' % owner,
                           key='%s|%s|tail-%s' % (rule, fn.g, owner))
             continue
